@@ -111,7 +111,7 @@ mod verif_c02 {
 
     //@STUBS
     #[kani::proof]
-    #[kani::unwind(10)]
+    #[kani::unwind(26)]
     fn c02_term_hash_pair() {
         let (a, b) = (any_k(), any_k());
         kani::assume(key(&a) == key(&b));
@@ -140,7 +140,7 @@ mod verif_c02 {
     }
 
     #[kani::proof]
-    #[kani::unwind(10)]
+    #[kani::unwind(26)]
     fn c02_langtag_laws() {
         let (x, y): ([u8; 2], [u8; 2]) = (kani::any(), kani::any());
         kani::assume(x[0].is_ascii_alphabetic() && x[1].is_ascii_alphabetic() && y[0].is_ascii_alphabetic() && y[1].is_ascii_alphabetic());
